@@ -27,7 +27,13 @@ type c16Case struct {
 }
 
 func (c c16Case) String() string {
-	return fmt.Sprintf("tree=%v include=%q exclude=%q dst=%s always-replace=%v", c.Tree.Paths(), c.Include, c.Exclude, c.Dst, c.Repl)
+	s := fmt.Sprintf("tree=%v include=%q exclude=%q dst=%s always-replace=%v", c.Tree.Paths(), c.Include, c.Exclude, c.Dst, c.Repl)
+	for _, n := range c.Tree {
+		if n.HL != 0 {
+			s += fmt.Sprintf(" %s:hl%d", n.Path, n.HL)
+		}
+	}
+	return s
 }
 
 func judgeC16(c c16Case) (string, string) {
@@ -263,6 +269,28 @@ func runC16(r *evid.Run) {
 						cases = append(cases, c16Case{Tree: t, Include: in, Exclude: ex, Dst: "empty"})
 					}
 				}
+			}
+		}
+	}
+	// hard-link groups spread over selected and unselected names: every partition of the four files of the first
+	// pattern tree, lists of length <=1 on both sides
+	for _, lab := range fsmodel.Partitions(4) {
+		t := trees[1].Clone()
+		fi := 0
+		for i := range t {
+			if t[i].Kind != fsmodel.File {
+				continue
+			}
+			if lab[fi] > 0 {
+				t[i].HL = lab[fi]
+				t[i].Data = fsmodel.Content(50+lab[fi], 3)
+				t[i].Mtime = fsmodel.T0 + int64(50+lab[fi])
+			}
+			fi++
+		}
+		for _, in := range patternLists(1, c10Patterns) {
+			for _, ex := range patternLists(1, c10Patterns) {
+				cases = append(cases, c16Case{Tree: t, Include: in, Exclude: ex, Dst: "empty"})
 			}
 		}
 	}
